@@ -275,6 +275,12 @@ func (f *Frame) closeLoop(li *loopInfo, st *State, cond string) {
 		for _, tr := range li.lc.Transitions {
 			tev := *ev
 			tev.prev = li.hdrState
+			tev.prevVars = map[string]SVal{}
+			for k, v := range f.loopEval(li, li.hdrState, cond).vars {
+				if strings.HasPrefix(k, "$") {
+					tev.prevVars[k] = v
+				}
+			}
 			g, err := tev.evalBool(tr.Expr)
 			if err != nil {
 				c.errorf("%s: transition %s: %v", tr.Where, tr.Tag(), err)
@@ -319,10 +325,22 @@ func (f *Frame) closeLoop(li *loopInfo, st *State, cond string) {
 		}
 		sort.Strings(keys)
 		n0 := c.nextRef(f.entry)
+		// one obligation per back edge: the conjunction over the heap keys the loop may change
+		var fgoals, fkeys []string
 		for _, k := range keys {
 			g := c.frameGoal(k, c.heapTerm(f.entry, k), c.heapTerm(st, k), n0, f.fnObjs[k])
 			if g != "true" {
-				f.oblige("inv-keep[fnframe:"+k+"]/"+f.loopName(li), nil, cond, g)
+				fgoals = append(fgoals, g)
+				fkeys = append(fkeys, k)
+			}
+		}
+		if len(fgoals) > 0 {
+			g := fgoals[0]
+			if len(fgoals) > 1 {
+				g = "(and " + strings.Join(fgoals, " ") + ")"
+			}
+			if ob := f.oblige("inv-keep[fnframe]/"+f.loopName(li), nil, cond, g); ob != nil {
+				ob.Clause = "the function frame holds at the back edge for: " + strings.Join(fkeys, ", ")
 			}
 		}
 	}
